@@ -28,7 +28,7 @@
 EXTENDS AppCodec
 
 MonInit == [viol |-> <<>>, n |-> 0]
-V(m, reason, l, ctx) == [m EXCEPT !.viol = Append(@, [prop |-> "C09", reason |-> reason, line |-> l, sc |-> ctx, ctx |-> ctx])]
+V(m, reason, l, ctx) == [m EXCEPT !.viol = IF Len(@) >= 300 THEN @ ELSE Append(@, [prop |-> "C09", reason |-> reason, line |-> l, sc |-> ctx, ctx |-> ctx])]
 
 Accepted(e) == e.hv = "ok" /\ e.ov = "ok" /\ e.role = "ok"
 ObjectsOk(e) == e.hv = "ok" /\ e.ov = "ok"
